@@ -204,6 +204,37 @@ func CorpusHistories(scratch string, names map[string]bool) ([]*History, []strin
 			g.Vals[0].Power, g.Vals[1].Power, g.Vals[2].Power = 10, 10, 10
 			g.Params.MinVotingPeriodBlocks, g.Params.MaxVotingPeriodBlocks, g.Params.LazyApplyingBlocks = 1, 6, 1
 		}},
+		// contracts in a scripted history: a contract that destroys itself when it receives a plain
+		// transfer (beneficiary = address 0), transfers before and after its destruction, a reverting call
+		{"transfer-to-selfdestructing-contract", 2, 3, 9, func(s *Sim, h int64) []*TxSpec {
+			deploy := func(from Key, prog []byte, value int64) *TxSpec {
+				t := s.baseTx(6, from, make([]byte, 20))
+				t.Data, t.Amount, t.Gas, t.Note = deployer(prog), fmt.Sprint(value), 400000, "script-deploy"
+				return t
+			}
+			s.watchAddr(make([]byte, 20))
+			switch h {
+			case 2:
+				return SeqNonce([]*TxSpec{deploy(s.User(0), progSuicide(), 5000), deploy(s.User(0), progReverter(), 0), deploy(s.User(0), progStore(s.rng), 0)})
+			case 4:
+				if len(s.contracts) >= 3 {
+					t := s.TxTransfer(s.User(1), s.contracts[0], "700")
+					t.Gas, t.Note = 100000, "script-transfer-to-suicide"
+					u := s.TxTransfer(s.User(2), s.contracts[1], "5")
+					u.Gas, u.Note = 100000, "script-transfer-to-reverter"
+					v := s.TxTransfer(s.User(0), s.contracts[2], "9")
+					v.Gas, v.Note = 100000, "script-transfer-to-store"
+					return []*TxSpec{t, u, v}
+				}
+			case 6:
+				if len(s.contracts) >= 1 {
+					t := s.TxTransfer(s.User(1), s.contracts[0], "300")
+					t.Gas, t.Note = 100000, "script-transfer-to-destroyed"
+					return []*TxSpec{t}
+				}
+			}
+			return nil
+		}, nil},
 		// downtime: with window 10 and minimum 8 the third miss inside the window (blocks 4, 6, 8) is the
 		// one that takes the validator below the minimum: it must lose all stake in that very block
 		{"downtime-at-exact-threshold", 3, 2, 14, func(s *Sim, h int64) []*TxSpec {
